@@ -1,8 +1,12 @@
 (* C12 -- INIT negotiation enables exactly the features both sides asked for.  (statements only) *)
 From Coq Require Import List String NArith Bool.
-From FB Require Import Lib.Bytes Gen.RustABI Model.Server Proofs.ServerInit.
+From FB Require Import Lib.Bytes Lib.Layout Gen.RustABI Spec.KernelABI Model.Server Model.ServerCmp
+  Spec.Requests Spec.Replies Spec.Init Model.InitToggles
+  Proofs.ServerInit Proofs.ServerInitNeg Proofs.InitToggles.
 Import ListNotations.
 Local Open Scope N_scope.
+
+(* ================================================================== the server's INIT handler *)
 
 (* the reply form follows the client's minor version: 8 / 24 / 64 bytes *)
 Theorem C12_reply_layout_by_minor : forall major minor ra fl mb ct mw tg mp ma f2,
@@ -14,5 +18,289 @@ Proof. exact init_out_lengths. Qed.
 Theorem C12_known_bits_contain_marker : N.land fsoptions_all INIT_EXT_BIT = INIT_EXT_BIT.
 Proof. exact fsoptions_all_has_ext. Qed.
 
+(* the request bytes the theorems below quantify over are the kernel-table encoding of the
+   specification-level request [init_q] *)
+Theorem C12_request_encoding : forall major minor ra flags f2,
+  struct_bytes (init_q major minor ra flags f2) ++ tail_bytes (init_q major minor ra flags f2)
+  = init_req major minor ra flags f2.
+Proof. exact init_req_is_encoding. Qed.
+
+(* a successful INIT: one `init` call, a ReplyOk whose body has the form the minor asks for and major 7 *)
+Theorem C12_init_runs : forall cfg h minor ra flags f2 want,
+  init_fits 7 minor ra flags f2 = true ->
+  let offered := N.land (client_capable (init_q 7 minor ra flags f2)) (cfg_fsopt_mask cfg) in
+  let body := init_reply_body minor ra (init_enabled offered want) in
+  do_init cfg h (init_req 7 minor ra flags f2) (FInit want)
+    = (([mk "init" (0, 0, 0) [AN offered]], ReplyOk body), Some minor) /\
+  blen body = init_body_len minor /\
+  kget "fuse_init_out" "major" O body = 7.
+Proof.
+  intros cfg h minor ra flags f2 want Hf. cbv zeta.
+  split; [exact (init_success_run cfg h minor ra flags f2 want Hf)|].
+  split; [exact (init_success_len cfg minor ra flags f2 want)|exact (init_success_major cfg minor ra flags f2 want)].
+Qed.
+
+(* THE INTERSECTION: what the client acts on after reading the reply (Spec/Init.v client_enabled:
+   flags2 only together with the marker, only in the 64-byte form) is exactly
+   offered /\ known /\ wanted, without the marker itself; for 5 <= minor < 23 its low 32 bits. *)
+Theorem C12_intersection : forall cfg minor ra flags f2 want,
+  init_fits 7 minor ra flags f2 = true ->
+  known_has_marker (cfg_fsopt_mask cfg) = true ->
+  5 <= minor ->
+  let q := init_q 7 minor ra flags f2 in
+  let offered := N.land (client_capable q) (cfg_fsopt_mask cfg) in
+  let expect := clear (N.land offered want) INIT_EXT in
+  client_enabled (init_reply_body minor ra (init_enabled offered want))
+  = if minor <? 23 then m32 expect else expect.
+Proof. exact init_success_enabled. Qed.
+
+(* the invariant behind it: bits 32.. of what the client offered are non-zero only with the marker *)
+Theorem C12_offered_coherent : forall major minor ra flags f2,
+  flags < 2 ^ 32 ->
+  N.testbit (client_capable (init_q major minor ra flags f2)) 30 = false ->
+  client_capable (init_q major minor ra flags f2) < 2 ^ 32.
+Proof. exact client_capable_coherent. Qed.
+
+(* the single `init` call carries what the client offered, restricted to known bits *)
+Theorem C12_capable_offered : forall cfg h minor ra flags f2 fr cs a m,
+  init_fits 7 minor ra flags f2 = true ->
+  do_init cfg h (init_req 7 minor ra flags f2) fr = ((cs, a), m) ->
+  cs = [mk "init" (0, 0, 0) [AN (N.land (client_capable (init_q 7 minor ra flags f2)) (cfg_fsopt_mask cfg))]].
+Proof. exact init_capable_offered. Qed.
+
+(* readahead is echoed *)
+Theorem C12_readahead_echoed : forall cfg minor ra flags f2 want,
+  init_fits 7 minor ra flags f2 = true -> 5 <= minor ->
+  let offered := N.land (client_capable (init_q 7 minor ra flags f2)) (cfg_fsopt_mask cfg) in
+  kget "fuse_init_out" "max_readahead" O (init_reply_body minor ra (init_enabled offered want)) = ra.
+Proof. exact init_success_readahead. Qed.
+
+(* write-size limit: max_write plus the header room fits the request buffer (page size 4096) *)
+Theorem C12_max_write : forall cfg minor ra flags f2 want,
+  5 <= minor ->
+  let offered := N.land (client_capable (init_q 7 minor ra flags f2)) (cfg_fsopt_mask cfg) in
+  let body := init_reply_body minor ra (init_enabled offered want) in
+  kget "fuse_init_out" "max_write" O body = init_max_write (init_enabled offered want) /\
+  1 <= kget "fuse_init_out" "max_write" O body /\
+  kget "fuse_init_out" "max_write" O body + 4096 <= MAX_BUFFER_SIZE + BUFFER_HEADER_SIZE.
+Proof. exact init_success_max_write. Qed.
+
+(* ... and it is false for 64 KiB pages: MAX_REQ_PAGES * pagesize = 16 MiB exceeds MAX_BUFFER_SIZE *)
+Theorem C12_max_write_fails_for_64k_pages :
+  max_write_for 4096 BIG_WRITES_BIT = init_max_write BIG_WRITES_BIT /\
+  max_write_for 65536 BIG_WRITES_BIT + BUFFER_HEADER_SIZE > MAX_BUFFER_SIZE + BUFFER_HEADER_SIZE.
+Proof. split; [reflexivity|exact max_write_64k_too_big]. Qed.
+
+(* major mismatch *)
+Theorem C12_major_mismatch : forall cfg h major minor ra flags f2 fr,
+  init_fits major minor ra flags f2 = true ->
+  (major < 7 -> do_init cfg h (init_req major minor ra flags f2) fr = (([], ReplyErr EPROTO None), None)) /\
+  (7 < major -> do_init cfg h (init_req major minor ra flags f2) fr = (([], ReplyOk init_version_only), None)).
+Proof.
+  intros cfg h major minor ra flags f2 fr Hf. split; intro H.
+  - exact (init_major_low cfg h major minor ra flags f2 fr Hf H).
+  - exact (init_major_high cfg h major minor ra flags f2 fr Hf H).
+Qed.
+
+Theorem C12_version_only_reply :
+  List.length init_version_only = 64%nat /\
+  kget "fuse_init_out" "major" O init_version_only = 7 /\
+  kget "fuse_init_out" "minor" O init_version_only = 33 /\
+  client_enabled init_version_only = 0 /\
+  kget "fuse_init_out" "max_write" O init_version_only = 0.
+Proof. exact init_version_only_fields. Qed.
+
+(* the version is stored only by a successful INIT with major 7, and it is the client's minor *)
+Theorem C12_version_stored : forall cfg h r fr d m,
+  do_init cfg h r fr = (d, Some m) ->
+  exists want body c, fr = FInit want /\ d = ([c], ReplyOk body) /\ c_method c = "init"%string /\
+                      Nat.leb 16 (List.length r) = true /\ u32 0 r = 7 /\ m = u32 4 r.
+Proof. exact init_version_stored. Qed.
+
+(* ================================================================== Vfs / passthrough / overlay switches *)
+
+Theorem C12_flag_constants :
+  fsopt "WRITEBACK_CACHE" = F_WRITEBACK_CACHE /\ fsopt "ZERO_MESSAGE_OPEN" = F_ZERO_MESSAGE_OPEN /\
+  fsopt "ZERO_MESSAGE_OPENDIR" = F_ZERO_MESSAGE_OPENDIR /\ fsopt "HANDLE_KILLPRIV_V2" = F_HANDLE_KILLPRIV_V2 /\
+  fsopt "PERFILE_DAX" = F_PERFILE_DAX /\ fsopt "ATOMIC_O_TRUNC" = F_ATOMIC_O_TRUNC.
+Proof. vm_compute. repeat split; reflexivity. Qed.
+
+Theorem C12_vfs_no_open_negotiated : forall s opts bs r s',
+  v_initialized s = false -> vfs_init s opts bs = (r, s') ->
+  vfs_open_enosys s' = true -> has opts F_ZERO_MESSAGE_OPEN = true.
+Proof. exact vfs_no_open_negotiated. Qed.
+
+Theorem C12_vfs_no_opendir_negotiated : forall s opts bs r s',
+  v_initialized s = false -> vfs_init s opts bs = (r, s') ->
+  vfs_opendir_enosys s' = true -> has opts F_ZERO_MESSAGE_OPENDIR = true.
+Proof. exact vfs_no_opendir_negotiated. Qed.
+
+Theorem C12_vfs_reply_subset : forall s opts bs out s',
+  vfs_init s opts bs = (IOk out, s') -> N.land out opts = out /\ vfs_backend_word s opts = out.
+Proof. exact vfs_reply_subset. Qed.
+
+Theorem C12_vfs_switch_iff_enabled : forall s opts bs out s',
+  vfs_cfg_coherent s -> vfs_init s opts bs = (IOk out, s') ->
+  vfs_open_enosys s' = has out F_ZERO_MESSAGE_OPEN /\
+  vfs_opendir_enosys s' = has out F_ZERO_MESSAGE_OPENDIR /\
+  vfs_cfg_coherent s'.
+Proof. exact vfs_switch_iff_enabled. Qed.
+
+Theorem C12_vfs_default_coherent : forall a b c d, vfs_cfg_coherent (vfs_new a b c d vfs_default_out).
+Proof. exact vfs_default_coherent. Qed.
+
+Theorem C12_vfs_feature_bits : forall s opts,
+  (has (v_out_opts (vfs_negotiate s opts)) F_WRITEBACK_CACHE = true ->
+     v_no_writeback s = false /\ has opts F_WRITEBACK_CACHE = true) /\
+  (has (v_out_opts (vfs_negotiate s opts)) F_HANDLE_KILLPRIV_V2 = true ->
+     v_killpriv_v2 s = true /\ has opts F_HANDLE_KILLPRIV_V2 = true) /\
+  (has (v_out_opts (vfs_negotiate s opts)) F_PERFILE_DAX = true -> has opts F_PERFILE_DAX = true) /\
+  (v_no_open (vfs_negotiate s opts) = true -> has (v_out_opts (vfs_negotiate s opts)) F_ATOMIC_O_TRUNC = false).
+Proof. exact vfs_out_feature_bits. Qed.
+
+Theorem C12_reinit : forall s opts bs out s',
+  vfs_init s opts bs = (IOk out, s') ->
+  forall opts' bs', vfs_init s' opts' bs' = (IErr EINVAL, s').
+Proof. exact vfs_second_init_refused. Qed.
+
+Theorem C12_pt_toggles_first_init : forall c capable, toggles_within (snd (pt_init c toggles_off capable)) capable.
+Proof. exact pt_init_fresh. Qed.
+
+Theorem C12_ovl_toggles_first_init : forall c capable, toggles_within (snd (ovl_init c toggles_off capable)) capable.
+Proof. exact ovl_init_fresh. Qed.
+
+Theorem C12_pt_under_vfs_exact : forall c capable,
+  c_do_import c = false ->
+  let t := snd (pt_init c toggles_off capable) in
+  t_writeback t = contains capable F_WRITEBACK_CACHE /\
+  t_no_open t = contains capable F_ZERO_MESSAGE_OPEN /\
+  t_no_opendir t = contains capable F_ZERO_MESSAGE_OPENDIR /\
+  t_killpriv_v2 t = contains capable F_HANDLE_KILLPRIV_V2 /\
+  t_perfile_dax t = contains capable F_PERFILE_DAX.
+Proof. exact pt_under_vfs_exact. Qed.
+
+Theorem C12_pt_standalone_needs_switch : forall c capable,
+  c_do_import c = true ->
+  let t := snd (pt_init c toggles_off capable) in
+  (t_writeback t = true -> c_writeback c = true) /\ (t_no_open t = true -> c_no_open c = true) /\
+  (t_no_opendir t = true -> c_no_opendir c = true) /\ (t_killpriv_v2 t = true -> c_killpriv_v2 c = true).
+Proof. exact pt_standalone_needs_switch. Qed.
+
+Theorem C12_pt_behaviour_negotiated : forall c capable,
+  behaviour_within (pt_behaviour c (snd (pt_init c toggles_off capable))) capable.
+Proof. exact pt_behaviour_negotiated. Qed.
+
+Theorem C12_pt_opts_offered : forall c t capable,
+  let o := fst (pt_init c t capable) in
+  (has o F_WRITEBACK_CACHE = true -> contains capable F_WRITEBACK_CACHE = true) /\
+  (has o F_ZERO_MESSAGE_OPEN = true -> contains capable F_ZERO_MESSAGE_OPEN = true) /\
+  (has o F_ZERO_MESSAGE_OPENDIR = true -> contains capable F_ZERO_MESSAGE_OPENDIR = true) /\
+  (has o F_HANDLE_KILLPRIV_V2 = true -> contains capable F_HANDLE_KILLPRIV_V2 = true) /\
+  (has o F_PERFILE_DAX = true -> contains capable F_PERFILE_DAX = true).
+Proof. exact pt_opts_offered. Qed.
+
+Theorem C12_ovl_opts_offered : forall c t capable,
+  let o := fst (ovl_init c t capable) in
+  (has o F_WRITEBACK_CACHE = true -> contains capable F_WRITEBACK_CACHE = true) /\
+  (has o F_ZERO_MESSAGE_OPEN = true -> contains capable F_ZERO_MESSAGE_OPEN = true) /\
+  (has o F_ZERO_MESSAGE_OPENDIR = true -> contains capable F_ZERO_MESSAGE_OPENDIR = true) /\
+  (has o F_HANDLE_KILLPRIV_V2 = true -> contains capable F_HANDLE_KILLPRIV_V2 = true) /\
+  (has o F_PERFILE_DAX = true -> contains capable F_PERFILE_DAX = true /\ c_perfile_dax c = true).
+Proof. exact ovl_opts_offered. Qed.
+
+(* ---- full statements the faithful model refutes (known findings; see notes/C12.md) ---- *)
+
+(* across INIT / DESTROY / INIT the layer switches follow the LAST negotiation *)
+Definition C12_toggles_history_full : Prop := pt_history_full /\ ovl_history_full.
+Theorem C12_toggles_history_refuted : ~ C12_toggles_history_full.
+Proof. intros [H _]. exact (pt_history_refuted H). Qed.
+Theorem C12_ovl_toggles_history_refuted : ~ ovl_history_full.
+Proof. exact ovl_history_refuted. Qed.
+Theorem C12_toggles_history_partial : forall c caps,
+  toggles_from (pt_run c toggles_off caps) caps /\ toggles_from (ovl_run c toggles_off caps) caps.
+Proof. intros c caps. split; [apply pt_history_partial|apply ovl_history_partial]. Qed.
+
+(* every overlay behaviour is switched on only when negotiated *)
+Definition C12_ovl_behaviour_full : Prop := ovl_behaviour_full.
+Theorem C12_ovl_behaviour_refuted : ~ C12_ovl_behaviour_full.
+Proof. exact ovl_behaviour_refuted. Qed.
+Theorem C12_ovl_behaviour_partial : forall c capable,
+  let b := ovl_behaviour c (snd (ovl_init c toggles_off capable)) in
+  (b_open_enosys b = true -> contains capable F_ZERO_MESSAGE_OPEN = true) /\
+  (b_opendir_enosys b = true -> contains capable F_ZERO_MESSAGE_OPENDIR = true) /\
+  (c_writeback c = false -> b_writeback_flags b = false) /\
+  b_killpriv b = false /\ b_dax b = false.
+Proof. exact ovl_behaviour_partial. Qed.
+
+(* ================================================================== non-vacuity witnesses *)
+Definition ex_cfg : config := {| cfg_minor := 33; cfg_remap := RemapOk 0 0; cfg_vu_req := false; cfg_fsopt_mask := fsoptions_all |}.
+Definition ex_hdr : hdr := {| h_len := 104; h_opcode := 26; h_unique := 1; h_nodeid := 0; h_uid := 0; h_gid := 0; h_pid := 0 |}.
+
+(* a 7.38 client with the extended form, offering PERFILE_DAX (bit 33) and ZERO_MESSAGE_OPEN; the
+   filesystem wants both: the client ends up with exactly those two bits *)
+Example C12_ex_hyps : init_fits 7 38 131072 (N.lor INIT_EXT_BIT 131072) (Some 2) = true /\
+                      known_has_marker (cfg_fsopt_mask ex_cfg) = true.
+Proof. vm_compute. split; reflexivity. Qed.
+
+Example C12_ex_extended :
+  let q := init_q 7 38 131072 (N.lor INIT_EXT_BIT 131072) (Some 2) in
+  let offered := N.land (client_capable q) fsoptions_all in
+  client_enabled (init_reply_body 38 131072 (init_enabled offered (N.lor F_PERFILE_DAX F_ZERO_MESSAGE_OPEN)))
+  = N.lor F_PERFILE_DAX F_ZERO_MESSAGE_OPEN.
+Proof. vm_compute. reflexivity. Qed.
+
+Example C12_ex_major : init_fits 6 0 0 0 None = true /\ init_fits 8 0 0 0 None = true.
+Proof. vm_compute. split; reflexivity. Qed.
+
+Example C12_ex_version_stored :
+  exists d, do_init ex_cfg ex_hdr (init_req 7 38 131072 (N.lor INIT_EXT_BIT 131072) (Some 2)) (FInit 0) = (d, Some 38).
+Proof. eexists. vm_compute. reflexivity. Qed.
+
+(* Vfs with its default options, client offering everything: init succeeds, no-open is on *)
+Example C12_ex_vfs :
+  exists out s', vfs_init (vfs_new true true false false vfs_default_out) all_caps [None] = (IOk out, s') /\
+                 vfs_open_enosys s' = true /\ v_initialized (vfs_new true true false false vfs_default_out) = false.
+Proof. eexists _, _. vm_compute. repeat split; reflexivity. Qed.
+
+Example C12_ex_pt_under_vfs :
+  c_do_import under_vfs = false /\ t_no_open (snd (pt_init under_vfs toggles_off F_ZERO_MESSAGE_OPEN)) = true.
+Proof. vm_compute. split; reflexivity. Qed.
+
+Example C12_ex_pt_standalone :
+  c_do_import (mkC true true false false false false) = true /\
+  t_writeback (snd (pt_init (mkC true true false false false false) toggles_off F_WRITEBACK_CACHE)) = true.
+Proof. vm_compute. split; reflexivity. Qed.
+
 Print Assumptions C12_reply_layout_by_minor.
 Print Assumptions C12_known_bits_contain_marker.
+Print Assumptions C12_request_encoding.
+Print Assumptions C12_init_runs.
+Print Assumptions C12_intersection.
+Print Assumptions C12_offered_coherent.
+Print Assumptions C12_capable_offered.
+Print Assumptions C12_readahead_echoed.
+Print Assumptions C12_max_write.
+Print Assumptions C12_max_write_fails_for_64k_pages.
+Print Assumptions C12_major_mismatch.
+Print Assumptions C12_version_only_reply.
+Print Assumptions C12_version_stored.
+Print Assumptions C12_flag_constants.
+Print Assumptions C12_vfs_no_open_negotiated.
+Print Assumptions C12_vfs_no_opendir_negotiated.
+Print Assumptions C12_vfs_reply_subset.
+Print Assumptions C12_vfs_switch_iff_enabled.
+Print Assumptions C12_vfs_default_coherent.
+Print Assumptions C12_vfs_feature_bits.
+Print Assumptions C12_reinit.
+Print Assumptions C12_pt_toggles_first_init.
+Print Assumptions C12_ovl_toggles_first_init.
+Print Assumptions C12_pt_under_vfs_exact.
+Print Assumptions C12_pt_standalone_needs_switch.
+Print Assumptions C12_pt_behaviour_negotiated.
+Print Assumptions C12_pt_opts_offered.
+Print Assumptions C12_ovl_opts_offered.
+Print Assumptions C12_toggles_history_refuted.
+Print Assumptions C12_ovl_toggles_history_refuted.
+Print Assumptions C12_toggles_history_partial.
+Print Assumptions C12_ovl_behaviour_refuted.
+Print Assumptions C12_ovl_behaviour_partial.
